@@ -495,7 +495,7 @@ pub fn finish(ctx: &Ctx) -> i32 {
     crate::engine::finish(
         ctx,
         Finish {
-            rule: "cases: (a) every core opcode embedded in OpSpecConstantOp with 0-4 trailing words; (b) generated modules (ordered / interleaved / wild), 3 in 4 with 1-3 stacked byte-level faults; (c) header + pseudo-instructions (declared opcodes, arbitrary word counts and operand words biased towards small declared values); (d) raw bytes with and without magic; (e') one Loader used for two parses in a row and then fed by hand; (e) decoder request scripts with limits from 0 to usize::MAX on buffers of any length. Oracle: catch_unwind around parse_bytes, parse_words, load_bytes, and for accepted modules assemble/disassemble of the module and of every instruction, and around every decoder request; overflow checks and debug assertions are enabled in the harness build. non-trivial = input that gets past the header (>= 1 instruction delivered, or a fault inside an instruction) / decoder script with a limit change and a string request; distinct = hash of the input.",
+            rule: "cases: (a) every core opcode embedded in OpSpecConstantOp with 0-4 trailing words; (b) generated modules (ordered / interleaved / wild), 3 in 4 with 1-3 stacked byte-level faults; (c) header + pseudo-instructions (declared opcodes, arbitrary word counts and operand words biased towards small declared values); (d) raw bytes with and without magic; (e') one Loader used for two parses in a row and then fed by hand; (e) decoder request scripts with limits from 0 to usize::MAX on buffers of any length. Oracle: catch_unwind around parse_bytes, parse_words, load_bytes, and for accepted modules assemble/disassemble of the module and of every instruction, and around every decoder request; overflow checks and debug assertions are enabled in the harness build. non-trivial = input that gets past the header (>= 1 instruction delivered, or a fault inside an instruction) / decoder script with a limit change and a string request; distinct = hash of the input. Added in rounds 18-19: structural-variations, cli-files (text files, structural variations and digit strings through the rspirv-dis binary) and ext-inst-vocabulary (every boundary number on every extended instruction set name of the registry).",
             assumptions: vec!["termination: every case returned (a hang would trip the watchdog, exit 2)".into()],
             trusted_base: vec!["std::panic::catch_unwind".into(), "proptest".into()],
         },
